@@ -2743,7 +2743,9 @@ class Recipe:
                 else:  # Container
                     before_substances += step.to[0].contents.get(substance, 0)
                     after_substances += step.to[1].contents.get(substance, 0)
-            if step.frm[0] is not None and step.frm[0].name in dest_names:
+            if step.frm[0] is not None and step.frm[0].name in dest_names and not (
+                    step.to[0] is not None and step.to[0].name == step.frm[0].name):
+                # (a transfer within one plate: that plate is counted above already)
                 if isinstance(step.frm[0], Plate):
                     before_substances += sum(well.contents.get(substance, 0) for well in step.frm[0].wells.flatten())
                     after_substances += sum(well.contents.get(substance, 0) for well in step.frm[1].wells.flatten())
